@@ -515,6 +515,15 @@ def sheet_chunk(jobs: list) -> list:
                 gf = slide.shapes.add_chart(types[tname][0], Emu(0), Emu(0), Emu(3000000), Emu(2000000), cd)
                 extend_data(cd, shape, 1, parity)
                 gf.chart.replace_data(cd)
+            elif site == "Replace1904":
+                # a chart that declares the 1904 date system (PowerPoint for Mac; written into the part with lxml), then replace_data
+                gf = slide.shapes.add_chart(types[tname][0], Emu(0), Emu(0), Emu(3000000), Emu(2000000), build_data(PRE[shape["kind"]], parity))
+                cs = gf.chart.part._element
+                for old in cs.findall(q(C, "date1904")):
+                    cs.remove(old)
+                from pptx.oxml import parse_xml
+                cs.insert(0, parse_xml('<c:date1904 xmlns:c="%s" val="1"/>' % C))
+                gf.chart.replace_data(build_data(shape, parity))
             elif site == "StagedData":
                 # ONE chart-data object rendered when half built (left spine of the category tree + first series / first point), then
                 # completed and used for the chart under test (staged_data)
@@ -542,12 +551,44 @@ def sheet_chunk(jobs: list) -> list:
             continue
         got = by_slide.get(si) if si is not None else None
         if got and len(got) == 1 and not rec["raised"]:
-            rec["obs"] = project_sheet(got[0][0], got[0][1])
+            rec["obs"] = dates_in_chart_system(project_sheet(got[0][0], got[0][1]), rec["data"])
         else:
             rec["obs"] = {"date1904": False, "wbDate1904": False, "grid": [], "sers": [], "hasWorkbook": False}
             if not rec["raised"]:
                 rec["raised"] = "driver: chart part not found in the saved deck"
     return res
+
+
+def _serial_between_systems(tok: str, wb1904: bool, chart1904: bool) -> str:
+    """A date cell holds a serial number in the WORKBOOK's date system; the statement compares "dates as serial numbers in the CHART's
+    date system": the same calendar day (and time of day) re-expressed.  1900 system as Excel counts it (day 60 is the phantom
+    1900-02-29); tokens that are not numbers are returned unchanged."""
+    if not tok.startswith("n:") or wb1904 == chart1904:
+        return tok
+    d = Decimal(tok[2:])
+    whole = int(d.to_integral_value(rounding="ROUND_FLOOR"))
+    frac = d - whole
+    if wb1904:
+        day = datetime.date(1904, 1, 1).toordinal() + whole
+    else:
+        day = datetime.date(1899, 12, 31).toordinal() + (whole - 1 if whole > 59 else whole)
+    if chart1904:
+        out = day - datetime.date(1904, 1, 1).toordinal()
+    else:
+        out = day - datetime.date(1899, 12, 31).toordinal()
+        out += 1 if out > 59 else 0
+    return canon_num(str(Decimal(out) + frac))
+
+
+def dates_in_chart_system(obs: dict, shape: dict) -> dict:
+    """obs with the date-category cells (column 1 from row 2 of a date-category chart's sheet) as serials in the chart's date system."""
+    if shape.get("kind") != "cat" or shape.get("catKind") != "date" or obs["date1904"] == obs["wbDate1904"] or not obs["grid"]:
+        return obs
+    grid = [list(r) for r in obs["grid"]]
+    for r in range(1, len(grid)):
+        if grid[r]:
+            grid[r][0] = _serial_between_systems(grid[r][0], obs["wbDate1904"], obs["date1904"])
+    return dict(obs, grid=grid, dateCellsReexpressed=True)
 
 
 def column_table() -> list:
